@@ -437,6 +437,7 @@ func cmdCheck(args []string) int {
 	var samples []any
 	newLock := map[string]lockEntry{}
 	callCovers := map[string]string{}
+	var unreachableReturns []string
 	for _, ur := range res.units {
 		for _, o := range ur.obls {
 			seen[o.Name] = true
@@ -450,6 +451,14 @@ func cmdCheck(args []string) int {
 				case "discharged":
 					coversOK++
 				case "failed":
+					if strings.Contains(o.Name, "/cover:return") {
+						// a single unreachable return site: dead code, or contracts that contradict each other along that
+						// path. Reported, and required to be absent on the unchanged tree (tools/regen.sh), but an edit that
+						// creates dead code must not turn the check into a tool error.
+						fmt.Printf("gocv: note: return site unreachable: %s\n", o.Name)
+						unreachableReturns = append(unreachableReturns, o.Name)
+						break
+					}
 					// unsat: the function's preconditions / assumed contracts are contradictory, every proof of it is vacuous
 					fmt.Printf("gocv: TOOL ERROR vacuity guard failed: %s (%s)\n", o.Name, o.Output)
 					toolError = true
@@ -492,6 +501,16 @@ func cmdCheck(args []string) int {
 				violations = append(violations, violationLine(prop, path, rep))
 				fmt.Printf("FAILED %s  undischarged (%s)  at %s\n   contract: %s\n", o.Name, o.Output, o.Pos, o.Text)
 			default:
+				// a new safety obligation that is merely undischarged raises no alarm - unless a scenario for it
+				// replays as a failure on the real code
+				if rm := findReplayTemplate(o.Name); rm != nil {
+					path, rep := writeReplay(prop, o, "new safety obligation undischarged: "+o.Output, string(smt))
+					if rep {
+						violations = append(violations, violationLine(prop, path, true))
+						fmt.Printf("FAILED %s  undischarged (%s), reproduced by replay  at %s\n", o.Name, o.Output, o.Pos)
+						break
+					}
+				}
 				undecided = append(undecided, o.Name+": "+o.Output)
 				total--
 			}
@@ -596,6 +615,7 @@ func cmdCheck(args []string) int {
 			"solver_time_s":             round2(res.solver.totalSecs),
 			"samples":                   samples,
 			"covers_sat":                fmt.Sprintf("%d/%d", coversOK, covers),
+			"unreachable_return_sites":  unreachableReturns,
 			"outside_reach":             res.outside,
 			"known_findings":            knownHit,
 			"undecided_new_safety":      undecided,
